@@ -223,6 +223,16 @@ class Ctx:
                 st, solver = 'unsat', solver2
             elif st2 == 'sat':
                 st, solver, model = 'sat', solver2, None
+        if st == 'unsat' and self.tier == 'thorough' and solver.startswith('z3-') and '4.8.12' not in solver:
+            # thorough tier: second opinion from an independent solver binary (z3 4.8.12 / cvc5) on the same query
+            st2, solver2, _ = smt_external(assumptions, [z3.Not(claim)], 20)
+            if st2 == 'unsat':
+                solver += ' + confirmed by ' + solver2
+            elif st2 == 'sat':
+                self.results.append(GoalResult(gid, ERROR, 'B', time.time() - t0, detail='solver disagreement: %s says unsat, %s says sat (A-SMT violated)' % (solver, solver2), solver=solver, kind=kind))
+                return ERROR
+            else:
+                solver += ' (second solver: unknown within 20 s)'
         secs = time.time() - t0
         if st == 'unsat':
             self.results.append(GoalResult(gid, PROVED, 'B', secs, solver=solver, kind=kind))
@@ -251,7 +261,24 @@ class Ctx:
             ok = None
         secs = time.time() - t0
         if ok:
-            self.results.append(GoalResult(gid, PROVED, 'B', secs, solver='ring normalisation (sympy %s)' % __import__('sympy').__version__, kind=kind))
+            solver = 'ring normalisation (sympy %s)' % __import__('sympy').__version__
+            if self.tier == 'thorough' and not relations:
+                # thorough tier: the same identities put to z3 (an independent decision procedure) with a short timeout
+                try:
+                    goal = z3.And(*[z3real(a) == z3real(b) for a, b in pairs])
+                    if subs:
+                        goal = z3.substitute(goal, *[(k, v) for k, v in subs.items()])
+                    st2, _, sv2, _ = smt_check([], [z3.Not(goal)], 5000, tactics=('default',))
+                    if st2 == 'unsat':
+                        solver += ' + confirmed by ' + sv2
+                    elif st2 == 'sat':
+                        # x/0 has an arbitrary value for z3, so a model with a vanishing denominator is no disagreement: report, do not fail
+                        solver += ' (z3 finds a model, presumably with a vanishing denominator: side obligations cover those)'
+                    else:
+                        solver += ' (z3: unknown within 5 s)'
+                except Exception:
+                    pass
+            self.results.append(GoalResult(gid, PROVED, 'B', secs, solver=solver, kind=kind))
             return PROVED
         if fallback is not None:
             return fallback()
